@@ -13,7 +13,7 @@ try:
     run("git", "config", "user.email", "a@b"); run("git", "config", "user.name", "x")
     head = run("git", "rev-parse", "HEAD").stdout.strip()
     fixes = run("git", "rev-list", "--reverse", f"{old}..{head}").stdout.split()
-    for p in sorted(glob.glob("/verif/seeded/*/patch.diff") + glob.glob("/verif/benign/*/patch.diff") + glob.glob("/verif/variants/*/patch.diff")):
+    for p in sorted(glob.glob("/verif/seeded/*/patch.diff") + glob.glob("/verif/benign/*/patch.diff") + glob.glob("/verif/benign_open/*/patch.diff") + glob.glob("/verif/variants/*/patch.diff")):
         run("git", "checkout", "-q", "-f", head); run("git", "clean", "-fdq")
         if run("git", "apply", "--check", p, check=False).returncode == 0:
             continue
